@@ -142,7 +142,12 @@ Proof.
   - eapply env_trans; [exact H1|]. eapply env_trans; [exact H2|]. apply D.
 Qed.
 
-Definition tick_of (o : op) (nw : Z) : Z := match o with Tick dt => nw + dt | _ => nw end.
+Lemma cleanup_env : forall c pol u scan order s, env_eq s (fst (cleanup c pol u scan order s)).
+Proof.
+  intros. unfold cleanup. destruct (should_aggro c u && pol && negb (c_alow c =? 0)).
+  - apply policy_pass_env.
+  - cbn [fst]. apply ttl_pass_env.
+Qed.
 
 Lemma step_env : forall o s, now (fst (step s o)) = tick_of o (now s) /\ cap (fst (step s o)) = cap s.
 Proof.
@@ -159,9 +164,11 @@ Proof.
   - split; reflexivity.
   - apply ttl_pass_env.
   - apply policy_pass_env.
-  - unfold cleanup. destruct (should_aggro c u && pol && negb (c_alow c =? 0)).
-    + apply policy_pass_env.
-    + cbn [fst]. apply ttl_pass_env.
+  - apply cleanup_env.
+  - destruct (job_fires c disabled dt).
+    + destruct (cleanup_env (apply_defaults c) true u scan order
+                  (mkst (dk s) (fm s) (now s + dt) (cap s))) as [A B]. cbn [now cap] in A, B. auto.
+    + split; reflexivity.
   - apply force_delete_env.
 Qed.
 
@@ -379,6 +386,23 @@ Qed.
 
 (* ---------------------------------------------------------------- the oracle on model traces *)
 
+Lemma chk_cleanup_sound : forall s c pol u scan order,
+  wf s -> NoDup scan ->
+  chk_cleanup (cap s) (now s) (dk s) (keys (fm s)) c pol u scan order
+              (snd (cleanup c pol u scan order s)) (dk (fst (cleanup c pol u scan order s))) = true.
+Proof.
+  intros s c pol u scan order W ND. unfold chk_cleanup, cleanup, pass_mode.
+  destruct (should_aggro c u && pol && negb (c_alow c =? 0)) eqn:Em.
+  - destruct u as [uu|]; cbn [option_map].
+    + destruct (policy_pass (c_alow c) (Some (u_total uu)) scan order s) as [s' r] eqn:E. cbn [fst snd].
+      destruct r; auto. destruct legal; auto. destruct err; auto.
+      eapply policy_pass_sound; eauto.
+    + destruct (snd (policy_pass (c_alow c) None scan order s)); auto.
+      destruct legal; auto. destruct err; auto.
+  - cbn [fst snd]. destruct (should_aggro c u) eqn:Ea; auto.
+    apply chk_exact_sound; auto.
+Qed.
+
 Lemma chk_step_sound : forall s o,
   wf s -> op_ok o = true ->
   chk_step (cap s) (now s) (dk s) (keys (fm s)) o
@@ -396,16 +420,13 @@ Proof.
     destruct r; auto. destruct legal; auto. destruct err; auto.
     eapply policy_pass_sound; eauto. apply nodupb_NoDup. exact OK.
   - (* Cleanup *)
-    cbn [step]. unfold cleanup. unfold pass_mode.
-    destruct (should_aggro c u && pol && negb (c_alow c =? 0)) eqn:Em.
-    + destruct u as [uu|]; cbn [option_map].
-      * destruct (policy_pass (c_alow c) (Some (u_total uu)) scan order s) as [s' r] eqn:E. cbn [fst snd].
-        destruct r; auto. destruct legal; auto. destruct err; auto.
-        eapply policy_pass_sound; eauto. apply nodupb_NoDup. exact OK.
-      * destruct (snd (policy_pass (c_alow c) None scan order s)); auto.
-        destruct legal; auto. destruct err; auto.
-    + cbn [fst snd]. destruct (should_aggro c u) eqn:Ea; auto.
-      apply chk_exact_sound; auto. apply nodupb_NoDup. exact OK.
+    cbn [step]. apply chk_cleanup_sound; auto. apply nodupb_NoDup. exact OK.
+  - (* Job *)
+    cbn [step]. destruct (job_fires c disabled dt); auto.
+    set (s1 := mkst (dk s) (fm s) (now s + dt) (cap s)).
+    assert (W1 : wf s1) by exact W.
+    apply (chk_cleanup_sound s1 (apply_defaults c) true u scan order W1).
+    apply nodupb_NoDup. exact OK.
 Qed.
 
 Lemma chk_from_sound : forall ops s,
